@@ -46,6 +46,17 @@ def gen_case(rng, unique=True):
         # a long, almost-ASCII paragraph with a few odd-width / control characters, wrapped at a width close to
         # its own cell length (where one mis-measured cell decides whether the line fits)
         text = S.sparse_odd_string(rng, 40, 160)
+    if not unique and rng.random() < 0.02:
+        # one unbroken word of more than a thousand characters that has to be folded, with as many double-width as
+        # zero-width characters (its cell length equals its character count although no slice need fit)
+        k = rng.choice([130, 260, 300])
+        chars = ([rng.choice(S.WIDE[:40]) for _ in range(k)] + [rng.choice(S.ZERO[:20]) for _ in range(k)]
+                 + [rng.choice(S.ASCII_LETTERS) for _ in range(rng.choice([520, 600]))])
+        if rng.random() < 0.5:
+            rng.shuffle(chars)
+        text = "".join(chars)
+        if text[0] in S.ZERO:
+            text = "a" + text
     n = len(text)
     spans = []
     palette = [G.rand_record(rng, p_attr=0.1, p_link=0.1) for _ in range(3)]
